@@ -8,3 +8,52 @@ func vh_C04_scMinimal() {
 	vReach("after scMinimal")
 	vAssert(got == want, "scMinimal(s) == (LE256(s) < L)")
 }
+
+// C04: every single-signature verifier mode rejects S >= L, whatever the cut callees answer.
+// variant case as in C01 (0 pure, 1 ctx, 2 ph+ctx, 3 ph), ZIP-215 flag symbolic.
+func vh_C04_verify_rejects_S_ge_L() {
+	got, _, _, _ := vVerifyWithOptionsCaseLen64()
+	vReach("VerifyWithOptions returned")
+	vAssert(!got, "S >= L is rejected in default and ZIP-215 mode")
+}
+
+func vh_C04_verify_Verify_rejects_S_ge_L() {
+	vCutVerify()
+	pk := vBytes("pk", 32)
+	sig := vBytes("sig", 64)
+	vAssume(!vLEult(sig[32:], vOrderL))
+	got := Verify(pk, vBlob("M"), sig)
+	vReach("Verify returned")
+	vAssert(!got, "Verify rejects S >= L")
+}
+
+// C04: S < L is never rejected on scalar grounds: for S < L the verdict equals the rest of the predicate,
+// which sees S only through its reduction (same obligation as C01 restricted to S < L, incl. [2^252, L)).
+func vh_C04_verify_top_slice_admitted() {
+	vCutVerify()
+	pk := vBytes("pk", 32)
+	sig := vBytes("sig", 64)
+	msg := vBlob("M")
+	vAssume(vLEult(sig[32:], vOrderL))
+	vAssume(!vLEult(sig[32:], "0x1000000000000000000000000000000000000000000000000000000000000000")) // 2^252 <= S
+	zip := vBool("zip215")
+	got := VerifyWithOptions(pk, msg, sig, &Options{ZIP215Verify: zip})
+	want := vsVerifyPredicate(pk, msg, sig, 0, "", zip)
+	vReach("VerifyWithOptions returned on the top slice")
+	vAssert(got == want, "2^252 <= S < L is treated like any smaller S")
+}
+
+// C04: uniqueness of the accepted S (arithmetic lemma in the cyclic group Z/8L with B = 8g):
+// if 8(S*8g - h*A - R) = 0 and 8(S'*8g - h*A - R) = 0 (mod 8L) with S, S' < L then S = S'.
+func vh_C04_uniqueness_lemma() {
+	L := vZc(vOrderL)
+	eightL := L.Mul(vZi(8))
+	S, S2, hA, R := vZfresh("S"), vZfresh("S2"), vZfresh("hA"), vZfresh("R")
+	zero := vZi(0)
+	vAssume(zero.Le(S) && S.Lt(L) && zero.Le(S2) && S2.Lt(L))
+	e1 := vZi(8).Mul(S.Mul(vZi(8)).Sub(hA).Sub(R)).Mod(eightL)
+	e2 := vZi(8).Mul(S2.Mul(vZi(8)).Sub(hA).Sub(R)).Mod(eightL)
+	vAssume(e1.Eq(zero) && e2.Eq(zero))
+	vReach("two accepted scalars")
+	vAssert(S.Eq(S2), "accepted S is unique for fixed key, message and R")
+}
